@@ -76,8 +76,8 @@ func Path(ref spec.Ref, basePath string) string {
 		return uri
 	}
 
-	refURL, _ := url.Parse(uri)
-	if refURL.Host != "" {
+	// NOTE: once unescaped, the ref may no more parse as a URL (e.g. a definition named "a%b")
+	if refURL, err := url.Parse(uri); err == nil && refURL.Host != "" {
 		return uri
 	}
 
